@@ -86,7 +86,19 @@ func (a *activity) end(kind int) { atomic.AddInt32(&a.active[kind], -1) }
 // key gen-g; for the probe 172.x.0.1: key gen-g if x == g%200, else refused.
 // A lookup that mixes filters of one generation with providers of another
 // produces an outcome no single generation allows.
-func c15Gen(g int, users []config.User, spaced bool) config.ServerConfig {
+//
+// A "hollow" generation is a configuration that loads but builds no provider at all (its only
+// scope names an unregistered provider type): every lookup is refused while it is in force,
+// whatever its filters say.
+func c15Gen(g int, users []config.User, spaced bool, hollow ...bool) config.ServerConfig {
+	c := c15GenFull(g, users, spaced)
+	if len(hollow) > 0 && hollow[0] {
+		c.Secrets[0].Type = 77
+	}
+	return c
+}
+
+func c15GenFull(g int, users []config.User, spaced bool) config.ServerConfig {
 	c := config.ServerConfig{
 		Secrets:     []config.SecretConfig{refsrv.Scope("scope0", fmt.Sprintf("gen-%d", g), "10.0.0.0/8", "172.0.0.0/8")},
 		PrefixDeny:  []string{fmt.Sprintf("10.%d.0.0/16", g%200)},
@@ -112,6 +124,7 @@ type lookupIn struct {
 	X      int
 	Write  bool
 	Gen    int
+	Hollow bool // (writes) the generation builds no provider
 }
 
 type lookupOut struct {
@@ -125,9 +138,15 @@ var c15Model = porcupine.Model{
 		g := state.(int)
 		in := input.(lookupIn)
 		if in.Write {
+			if in.Hollow {
+				return true, -in.Gen
+			}
 			return true, in.Gen
 		}
 		out := output.(lookupOut)
+		if g < 0 {
+			return out.Refused, g // hollow generation: nothing is served
+		}
 		switch in.Family {
 		case 'd':
 			if in.X == g%200 {
@@ -144,6 +163,9 @@ var c15Model = porcupine.Model{
 	DescribeOperation: func(input, output interface{}) string {
 		in := input.(lookupIn)
 		if in.Write {
+			if in.Hollow {
+				return fmt.Sprintf("reload(gen %d, builds no provider)", in.Gen)
+			}
 			return fmt.Sprintf("reload(gen %d)", in.Gen)
 		}
 		out := output.(lookupOut)
@@ -265,10 +287,11 @@ func c15Round(b *mon.B, r *gen.R, act *activity, caseNo, round int) {
 			if rr.Chance(3, 4) {
 				g++
 			}
+			hollow := i > 2 && i < nReloads-1 && rr.Chance(1, 7)
 			atomic.StoreInt32(&curGen, int32(g))
 			act.begin(6)
 			call := tick()
-			err := ref.Publish(c15Gen(g, users, true))
+			err := ref.Publish(c15Gen(g, users, true, hollow))
 			ret := tick()
 			act.end(6)
 			if err != nil {
@@ -276,8 +299,11 @@ func c15Round(b *mon.B, r *gen.R, act *activity, caseNo, round int) {
 				return
 			}
 			opsMu.Lock()
-			ops = append(ops, porcupine.Operation{ClientId: 0, Input: lookupIn{Write: true, Gen: g}, Call: call, Output: lookupOut{}, Return: ret})
+			ops = append(ops, porcupine.Operation{ClientId: 0, Input: lookupIn{Write: true, Gen: g, Hollow: hollow}, Call: call, Output: lookupOut{}, Return: ret})
 			opsMu.Unlock()
+			if hollow {
+				b.Count("reloads_that_build_no_provider", 1)
+			}
 			rehash(fmt.Sprintf("after load %d", i))
 			time.Sleep(time.Duration(rr.Intn(3000)) * time.Microsecond)
 		}
@@ -395,10 +421,25 @@ func c15Round(b *mon.B, r *gen.R, act *activity, caseNo, round int) {
 						rec = papLogin(user, pw, 1)
 					case 2:
 						rec = authorCmd(user, rr.PickS("show", "configure", "reload"), rr.PickS("version", "terminal", "ip route x"))
+						if rr.Bool() {
+							// a request of a few KiB: large bodies take other paths through buffers
+							var long []string
+							for i, n := 0, 6+rr.Intn(30); i < n; i++ {
+								long = append(long, rr.Alnum(100+rr.Intn(140)))
+							}
+							rec = authorCmd(user, "show", long...)
+						}
 					case 3:
 						rec = authorSession(user, "service="+rr.PickS("shell", "ppp"), "protocol=ip")
 					case 4:
 						rec = acct(user, rr.Pick(2, 4, 8), "task_id="+rr.Alnum(5))
+						if rr.Bool() {
+							args := []string{"task_id=" + rr.Alnum(5)}
+							for i, n := 0, 6+rr.Intn(60); i < n; i++ {
+								args = append(args, "x="+rr.Alnum(100+rr.Intn(150)))
+							}
+							rec = acct(user, rr.Pick(2, 4, 8), args...)
+						}
 					}
 					other := authorCmd(names[rr.Intn(len(names))], "show", "version")
 					osid := rr.U32()
